@@ -474,12 +474,13 @@ def molgrid_interpolate(chk):
 
             def interp_contract(e, f, args, kwargs):
                 a = args[0].fields.get("_atom_index")
-                rec["build"].append((a, args[1]))
+                rec["build"].append((a, framework.bound_arguments(e, f, args, kwargs).get("func_vals")))
 
-                def low(e2, pts, *pa, **kw):
-                    names = ("deriv", "deriv_spherical", "only_radial_derivs")
+                def low(e2, *pa, **kw):
+                    names = ("points", "deriv", "deriv_spherical", "only_radial_derivs")
                     given = dict(zip(names, pa))
-                    given.update(kw)
+                    given.update({("only_radial_derivs" if k_ == "only_radial_deriv" else k_): v_ for k_, v_ in kw.items()})
+                    pts = given.pop("points")
                     rec["eval"].append((a, pts, given))
                     return I.Arr((pts.shape[0],), lambda j, a=a: AINT(a, T.zi(j)), "real")
                 return I.Model("atomic_interpolant", low)
